@@ -71,7 +71,7 @@ pub struct IsoCase {
     pub closed: u8,
 }
 
-const PRELUDE: &str = "v1=orig\nv2=orig2\nexport v2\nf1() { echo f1; }\nalias a1='echo a1'\nset -- x y\ntrap 'echo usr1' USR1\ntrap '' USR2\nexec 3>/tmp/f0\numask 027\n";
+const PRELUDE: &str = "v1=orig\nv2=orig2\nexport v2\nf1() { echo f1; }\nalias a1='echo a1'\nset -- x y\ntrap 'echo usr1' USR1\ntrap '' USR2\ntrap 'mark XT' EXIT\nexec 3>/tmp/f0\numask 027\n";
 
 fn script(c: &IsoCase) -> String {
     let mut body = String::from("snap C0\n");
@@ -204,6 +204,11 @@ fn check_iso(c: &IsoCase) -> Outcome {
     let (Some(pa), Some(pb)) = (pa, pb) else { return Outcome::fail(ctx("process snapshots missing".into())) };
     if a.pid != b.pid {
         return Outcome::fail(ctx("A and B taken in different processes".into()));
+    }
+    // the parent's EXIT trap (a command action) is reset on subshell entry: its action may run
+    // in the main shell only
+    if let Some(t) = r.trace.iter().find(|t| t.args.first().is_some_and(|a| a == "XT") && t.pid != r.main_pid) {
+        return Outcome::fail(ctx(format!("the parent's EXIT trap action ran in process {} (main shell is {}): traps with command actions are reset to default in a subshell", t.pid, r.main_pid)));
     }
     // (1) parent unchanged
     let ignore: &[&str] = match c.kind {
